@@ -13,28 +13,17 @@
   Stacks `callStack/iterStack/refStack` are kept in Go order (index 0 = oldest, push = append,
   truncate = `take`), because try frames address them by length.  `tryStack` is kept top-first.
 
+  The model transcribes the code AFTER the re-sync round (fix commits 195a32b e71ffae eae3f2a 9e5aa04
+  570c7df 379f30d 5d979ec in /repo): leaveAbrupt resets prg/sb, Runtime.Try runs leaveAbrupt at depth 0,
+  _restoreStacks truncates in a deferred function and closes iterators only for catchable throws,
+  RunProgram pops only a context it pushed, enterFinally clears catchPos.
+
   The interpreter is written in open-recursion style: every definition takes `runF : RunF`, the
   interpreter for sub-behaviours; `run (fuel+1) = step (run fuel)` and `run 0` answers `fatal` —
   running out of fuel is indistinguishable from being interrupted at that point, so every theorem
   holds for every fuel without side conditions.
 -/
 namespace GojaModel.C03
-
-/-- Which of the repairs proposed in /verif/fixes/C03-*.diff the modelled code contains.
-`Cfg.asCoded` is /repo today. -/
-structure Cfg where
-  /-- fixes/C03-stale-prg.diff: leaveAbrupt also resets vm.prg / vm.sb -/
-  fixStalePrg : Bool
-  /-- fixes/C03-try-leave.diff: Runtime.Try performs leaveAbrupt when an uncatchable passes at depth 0 -/
-  fixTryLeave : Bool
-  /-- fixes/C03-unwind-abort.diff: restoreStacks truncates iter/ref stacks even if an iterator close panics -/
-  fixUnwindAbort : Bool
-  /-- fixes/C03-recursive-overflow.diff: RunProgram's deferred popCtx only if its pushCtx happened -/
-  fixRecOverflow : Bool
-deriving DecidableEq, Repr
-
-def Cfg.asCoded : Cfg := ⟨false, false, false, false⟩
-def Cfg.allFixed : Cfg := ⟨true, true, true, true⟩
 
 /-- vm.go:37 -/
 structure Ctx where
@@ -144,9 +133,9 @@ structure Vm where
   trace : List Obs
 deriving Repr, Inhabited
 
-/-- `wrecked`: an uncatchable raised while handleThrow itself was unwinding (restoreStacks aborted).
-`stuck`: a model assertion failed (proved unreachable, `Good`). -/
-inductive Outcome | normal | thrown | fatal | wrecked | stuck
+/-- `fatal`: uncatchable (interrupt, stack overflow, fuel exhaustion).
+`stuck`: a model assertion failed (proved unreachable: `run_good`). -/
+inductive Outcome | normal | thrown | fatal | stuck
 deriving DecidableEq, Repr, Inhabited
 
 abbrev Res := Outcome × Vm
@@ -215,25 +204,26 @@ def closeIters (runF : RunF) : List IterItem → Vm → Bool × Vm
       | _ => (true, r.2)
     else closeIters runF rest s
 
-/-- vm.go:777. -/
-def restoreStacks (runF : RunF) (cfg : Cfg) (iterLen refLen : Nat) (s : Vm) : Bool × Vm :=
-  let r := closeIters runF (s.iterStack.drop iterLen).reverse s
-  if r.1 && !cfg.fixUnwindAbort then (true, r.2)
-  else (r.1, { r.2 with iterStack := r.2.iterStack.take iterLen, refStack := r.2.refStack.take refLen })
+/-- vm.go `_restoreStacks(iterLen, refLen, closeIters)`: iterators are closed only when unwinding for a
+catchable throw; the truncation of both stacks sits in a deferred function, so it happens even when an
+iterator's return() leaves with an uncatchable (first component `true`). -/
+def restoreStacks (runF : RunF) (doClose : Bool) (iterLen refLen : Nat) (s : Vm) : Bool × Vm :=
+  let r := if doClose then closeIters runF (s.iterStack.drop iterLen).reverse s else (false, s)
+  (r.1, { r.2 with iterStack := r.2.iterStack.take iterLen, refStack := r.2.refStack.take refLen })
 
 inductive HT | caught | fin | atMarker | empty | aborted
 deriving DecidableEq, Repr
 
 /-- The loop of handleThrow (vm.go:802-839) over the try stack (top first).  `catchable = false`
 is `ex == nil` (payload not convertible by exceptionFromValue: interrupt, stack overflow). -/
-def handleThrowLoop (runF : RunF) (cfg : Cfg) (catchable : Bool) : List TryFrame → Vm → HT × Vm
+def handleThrowLoop (runF : RunF) (catchable : Bool) : List TryFrame → Vm → HT × Vm
   | [], s => (.empty, { s with tryStack := [] })
   | tf :: rest, s =>
     if isConsumed tf || (!catchable && tf.catchPos != tryPanicMarker) then
-      handleThrowLoop runF cfg catchable rest { s with tryStack := rest }
+      handleThrowLoop runF catchable rest { s with tryStack := rest }
     else
       let s1 := restoreFrame tf { s with tryStack := tf :: rest }
-      let r := restoreStacks runF cfg tf.iterLen tf.refLen s1
+      let r := restoreStacks runF catchable tf.iterLen tf.refLen s1    -- closeIters = (ex != nil)
       if r.1 then (.aborted, r.2)
       else if tf.catchPos == tryPanicMarker then (.atMarker, r.2)
       else if tf.catchPos ≥ 0 then
@@ -244,10 +234,8 @@ def handleThrowLoop (runF : RunF) (cfg : Cfg) (catchable : Bool) : List TryFrame
                           tryStack := { tf with exception := some 1, finallyPos := -1, finallyRet := -1 } :: rest })
       else (.empty, r.2)
 
-def handleThrow (runF : RunF) (cfg : Cfg) (catchable : Bool) (s : Vm) : HT × Vm :=
-  handleThrowLoop runF cfg catchable s.tryStack s
-
-def abortOutcome (cfg : Cfg) : Outcome := if cfg.fixUnwindAbort then .fatal else .wrecked
+def handleThrow (runF : RunF) (catchable : Bool) (s : Vm) : HT × Vm :=
+  handleThrowLoop runF catchable s.tryStack s
 
 /-! ### bracketing frame operations -/
 
@@ -318,7 +306,9 @@ def finPhase (runF : RunF) (fin : Beh) (s : Vm) : Res :=
     | [] => (.stuck, r.2)
   | o => (o, r.2)
 
-/-- leaveTry (vm.go:4778) -/
+/-- End of the protected region.  Without `finally`: leaveTry (pop).  With `finally`: the compiler emits a
+jump to enterFinally, which clears finallyPos AND catchPos (fix 379f30d); the block-exit form of leaveTry
+(break/continue/return through the statement) does the same and also resets sp/stash from the frame. -/
 def leaveTry (runF : RunF) (fin : Beh) (s : Vm) : Res :=
   match s.tryStack with
   | tf :: rest =>
@@ -330,20 +320,20 @@ def leaveTry (runF : RunF) (fin : Beh) (s : Vm) : Res :=
   | [] => (.stuck, s)
 
 /-- a throw reaching this try statement whose frame still has a live `finally` -/
-def throwToFinally (runF : RunF) (cfg : Cfg) (fin : Beh) (depth : Nat) (s : Vm) : Res :=
-  let r := handleThrow runF cfg true s
+def throwToFinally (runF : RunF) (fin : Beh) (depth : Nat) (s : Vm) : Res :=
+  let r := handleThrow runF true s
   match r.1 with
   | .fin => if r.2.tryStack.length = depth + 1 then finPhase runF fin r.2 else (.stuck, r.2)
-  | .aborted => (abortOutcome cfg, r.2)
+  | .aborted => (.fatal, r.2)
   | _ => (.stuck, r.2)
 
-def afterHandler (runF : RunF) (cfg : Cfg) (hasFin : Bool) (fin : Beh) (depth : Nat) (r : Res) : Res :=
+def afterHandler (runF : RunF) (hasFin : Bool) (fin : Beh) (depth : Nat) (r : Res) : Res :=
   match r.1 with
   | .normal => leaveTry runF fin r.2
-  | .thrown => if hasFin then throwToFinally runF cfg fin depth r.2 else (.thrown, r.2)
+  | .thrown => if hasFin then throwToFinally runF fin depth r.2 else (.thrown, r.2)
   | o => (o, r.2)
 
-def tryStmt (runF : RunF) (cfg : Cfg) (hasCatch hasFin : Bool) (body handler fin : Beh) (s : Vm) : Res :=
+def tryStmt (runF : RunF) (hasCatch hasFin : Bool) (body handler fin : Beh) (s : Vm) : Res :=
   let depth := s.tryStack.length
   let s0 := pushTryFrame (if hasCatch then 10 else -1) (if hasFin then 20 else -1) s
   let r1 := runF body s0
@@ -351,16 +341,16 @@ def tryStmt (runF : RunF) (cfg : Cfg) (hasCatch hasFin : Bool) (body handler fin
   | .normal => leaveTry runF fin r1.2
   | .thrown =>
     if hasCatch then
-      let h := handleThrow runF cfg true r1.2
+      let h := handleThrow runF true r1.2
       match h.1 with
       | .caught =>
         if h.2.tryStack.length = depth + 1 then
           -- the handler binds the exception value (sp - 1) and runs
-          afterHandler runF cfg hasFin fin depth (runF handler { h.2 with sp := h.2.sp - 1 })
+          afterHandler runF hasFin fin depth (runF handler { h.2 with sp := h.2.sp - 1 })
         else (.stuck, h.2)
-      | .aborted => (abortOutcome cfg, h.2)
+      | .aborted => (.fatal, h.2)
       | _ => (.stuck, h.2)
-    else if hasFin then throwToFinally runF cfg fin depth r1.2
+    else if hasFin then throwToFinally runF fin depth r1.2
     else (.stuck, r1.2)          -- `try` without catch and finally does not parse
   | o => (o, r1.2)
 
@@ -368,24 +358,24 @@ def tryStmt (runF : RunF) (cfg : Cfg) (hasCatch hasFin : Bool) (body handler fin
 
 /-- what the deferred recover of a boundary does with a non-normal outcome of its body:
 handleThrow, then the deferred popTryFrame -/
-def unwindAtMarker (runF : RunF) (cfg : Cfg) (o : Outcome) (s : Vm) : Res :=
-  let h := handleThrow runF cfg (o == .thrown) s
+def unwindAtMarker (runF : RunF) (o : Outcome) (s : Vm) : Res :=
+  let h := handleThrow runF (o == .thrown) s
   let s3 := popTryFrame h.2
   match h.1 with
   | .atMarker => (if o == .thrown then .thrown else .fatal, s3)
-  | .aborted => (abortOutcome cfg, s3)
+  | .aborted => (.fatal, s3)
   | _ => (.stuck, s3)
 
 /-- vm.try (vm.go:854) -/
-def tryB (runF : RunF) (cfg : Cfg) (b : Beh) (s : Vm) : Res :=
+def tryB (runF : RunF) (b : Beh) (s : Vm) : Res :=
   let r := runF b (pushTryFrame tryPanicMarker (-1) s)
   match r.1 with
   | .normal => (.normal, popTryFrame r.2)
   | .stuck => (.stuck, r.2)
-  | o => unwindAtMarker runF cfg o r.2
+  | o => unwindAtMarker runF o r.2
 
 /-- func.go:397 __call -/
-def goCall (runF : RunF) (cfg : Cfg) (n : Nat) (f : FnInfo) (b : Beh) (s : Vm) : Res :=
+def goCall (runF : RunF) (n : Nat) (f : FnInfo) (b : Beh) (s : Vm) : Res :=
   let s1 := pushTryFrame tryPanicMarker (-1) { s with sp := s.sp + 2 + n }
   let pushed : Option (Vm × Bool) :=
     if s1.prg.isSome then
@@ -403,7 +393,7 @@ def goCall (runF : RunF) (cfg : Cfg) (n : Nat) (f : FnInfo) (b : Beh) (s : Vm) :
       let s6 := if needPop then popCtx s5 else s5
       (.normal, popTryFrame { s6 with sp := s6.sp - 1 })
     | .stuck => (.stuck, r.2)
-    | o => unwindAtMarker runF cfg o r.2
+    | o => unwindAtMarker runF o r.2
 
 def runJobs (runF : RunF) : List Beh → Vm → Res
   | [], s => (.normal, s)
@@ -425,14 +415,13 @@ def leaveLoop (runF : RunF) : Nat → Vm → Res
       | .normal => leaveLoop runF lf r.2
       | o => (o, r.2)
 
-/-- runtime.go:2849 (+ the proposed reset of prg/sb) -/
-def leaveAbrupt (cfg : Cfg) (s : Vm) : Vm :=
-  let s1 := { s with jobQueue := [], interrupted := false }
-  if cfg.fixStalePrg then { s1 with prg := none, sb := -1 } else s1
+/-- runtime.go leaveAbrupt (with fix e71ffae: prg/sb reset) -/
+def leaveAbrupt (s : Vm) : Vm :=
+  { s with jobQueue := [], interrupted := false, prg := none, sb := -1 }
 
 /-- runtime.go:2504 -/
-def runWrapped (runF : RunF) (cfg : Cfg) (lf : Nat) (b : Beh) (s : Vm) : Res :=
-  let r := tryB runF cfg b s
+def runWrapped (runF : RunF) (lf : Nat) (b : Beh) (s : Vm) : Res :=
+  let r := tryB runF b s
   match r.1 with
   | .normal | .thrown =>
     if r.2.callStack.length = 0 then
@@ -440,20 +429,15 @@ def runWrapped (runF : RunF) (cfg : Cfg) (lf : Nat) (b : Beh) (s : Vm) : Res :=
       match l.1 with
       | .normal => (r.1, l.2)
       | .stuck => (.stuck, l.2)
-      | o => (o, leaveAbrupt cfg l.2)       -- a job panicked with an uncatchable: deferred recover
+      | o => (o, leaveAbrupt l.2)       -- a job panicked with an uncatchable: deferred recover
     else r
   | .stuck => r
-  | o => (o, if r.2.callStack.length = 0 then leaveAbrupt cfg r.2 else r.2)
+  | o => (o, if r.2.callStack.length = 0 then leaveAbrupt r.2 else r.2)
 
 /-- runtime.go:1434, `recursive` branch -/
-def runProgramRec (runF : RunF) (cfg : Cfg) (p : Nat) (b : Beh) (s : Vm) : Res :=
+def runProgramRec (runF : RunF) (p : Nat) (b : Beh) (s : Vm) : Res :=
   match pushCtx s with
-  | none =>
-    -- pushCtx panics; the deferred function still runs `vm.sp -= 2; vm.popCtx()`
-    if cfg.fixRecOverflow then (.fatal, s)
-    else
-      let t := popCtx { s with sp := s.sp - 2 }
-      (.fatal, if t.callStack.length = 0 then leaveAbrupt cfg t else t)
+  | none => (.fatal, s)     -- pushCtx panics before `pushed = true`: the deferred function pops nothing (fix 195a32b)
   | some s1 =>
     let s2 : Vm := { s1 with stash := globalStash, privEnv := none, newTarget := 0, args := 0,
                              sb := s1.sp + 1, sp := s1.sp + 2, prg := some p, pc := 0, result := 0 }
@@ -462,12 +446,12 @@ def runProgramRec (runF : RunF) (cfg : Cfg) (p : Nat) (b : Beh) (s : Vm) : Res :
     let r' : Res := match r.1 with
       | .normal => (.normal, popTryFrame r.2)
       | .stuck => (.stuck, r.2)
-      | o => unwindAtMarker runF cfg o r.2
+      | o => unwindAtMarker runF o r.2
     -- deferred: vm.sp -= 2; vm.popCtx()
     (r'.1, popCtx { r'.2 with sp := r'.2.sp - 2 })
 
 /-- runtime.go:1434, outermost branch (len(callStack) = 0) -/
-def runProgramOuter (runF : RunF) (cfg : Cfg) (lf : Nat) (p : Nat) (b : Beh) (s : Vm) : Res :=
+def runProgramOuter (runF : RunF) (lf : Nat) (p : Nat) (b : Beh) (s : Vm) : Res :=
   let s1 : Vm := { s with callStack := s.callStack ++ [⟨none, [], none, 0, 0, 0, 0, 0⟩],
                           prg := some p, pc := 0, result := 0 }
   let r := if s1.interrupted then (Outcome.fatal, pushTryFrame tryPanicMarker (-1) s1)
@@ -475,7 +459,7 @@ def runProgramOuter (runF : RunF) (cfg : Cfg) (lf : Nat) (p : Nat) (b : Beh) (s 
   let r' : Res := match r.1 with
     | .normal => (.normal, popTryFrame r.2)
     | .stuck => (.stuck, r.2)
-    | o => unwindAtMarker runF cfg o r.2
+    | o => unwindAtMarker runF o r.2
   match r'.1 with
   | .normal | .thrown =>
     -- vm.prg = nil; vm.sb = -1; r.leave(); deferred: callStack = callStack[:len-1]
@@ -485,15 +469,15 @@ def runProgramOuter (runF : RunF) (cfg : Cfg) (lf : Nat) (p : Nat) (b : Beh) (s 
     (match l.1 with
      | .normal => (r'.1, pop l.2)
      | .stuck => (.stuck, l.2)
-     | o => let t := pop l.2; (o, if t.callStack.length = 0 then leaveAbrupt cfg t else t))
+     | o => let t := pop l.2; (o, if t.callStack.length = 0 then leaveAbrupt t else t))
   | .stuck => r'
   | o =>
     let t : Vm := { r'.2 with callStack := r'.2.callStack.dropLast }
-    (o, if t.callStack.length = 0 then leaveAbrupt cfg t else t)
+    (o, if t.callStack.length = 0 then leaveAbrupt t else t)
 
 /-! ### one layer of the interpreter -/
 
-def step (cfg : Cfg) (lf : Nat) (runF : RunF) : Beh → Vm → Res
+def step (lf : Nat) (runF : RunF) : Beh → Vm → Res
   | .skip, s => (.normal, s)
   | .seq a b, s =>
     let r := runF a s
@@ -512,16 +496,16 @@ def step (cfg : Cfg) (lf : Nat) (runF : RunF) : Beh → Vm → Res
       | .normal => (.normal, k.post r.2)
       | o => (o, r.2)
   | .try_ hc hf body handler fin, s =>
-    if hc || hf then tryStmt runF cfg hc hf body handler fin s else runF body s
-  | .goCall n f b, s => goCall runF cfg n f b s
-  | .api .try_ b, s => tryB runF cfg b s
-  | .api .runWrapped b, s => runWrapped runF cfg lf b s
-  | .api .runProgramRec b, s => runProgramRec runF cfg 7 b s
+    if hc || hf then tryStmt runF hc hf body handler fin s else runF body s
+  | .goCall n f b, s => goCall runF n f b s
+  | .api .try_ b, s => tryB runF b s
+  | .api .runWrapped b, s => runWrapped runF lf b s
+  | .api .runProgramRec b, s => runProgramRec runF 7 b s
   | .job b, s => (.normal, { s with jobQueue := s.jobQueue ++ [b] })
 
-def run (cfg : Cfg) : Nat → RunF
+def run : Nat → RunF
   | 0 => fun _ s => (.fatal, s)
-  | fuel + 1 => step cfg fuel (run cfg fuel)
+  | fuel + 1 => step fuel (run fuel)
 
 /-! ### API calls made by the host between which the runtime must be idle -/
 
@@ -533,23 +517,22 @@ inductive TopApi
   | tryGet (f : FnInfo)   -- Runtime.Try(func(){ obj.Get("x") }) with a JS getter
 deriving Repr
 
-/-- Runtime.Try (runtime.go:2607) -/
-def runtimeTry (cfg : Cfg) (fuel : Nat) (b : Beh) (s : Vm) : Res :=
-  let r := tryB (run cfg fuel) cfg b s
+/-- Runtime.Try (with fix 9e5aa04: leaveAbrupt when an uncatchable passes at depth 0) -/
+def runtimeTry (fuel : Nat) (b : Beh) (s : Vm) : Res :=
+  let r := tryB (run fuel) b s
   match r.1 with
-  | .fatal | .wrecked =>
-    (r.1, if cfg.fixTryLeave && r.2.callStack.length = 0 then leaveAbrupt cfg r.2 else r.2)
+  | .fatal => (.fatal, if r.2.callStack.length = 0 then leaveAbrupt r.2 else r.2)
   | _ => r
 
-def apiCall (cfg : Cfg) (fuel : Nat) (k : TopApi) (b : Beh) (s : Vm) : Res :=
+def apiCall (fuel : Nat) (k : TopApi) (b : Beh) (s : Vm) : Res :=
   match k with
   | .runProgram =>
-    if s.callStack.length > 0 then runProgramRec (run cfg fuel) cfg 7 b s
-    else runProgramOuter (run cfg fuel) cfg fuel 7 b s
-  | .callable n f => runWrapped (run cfg fuel) cfg fuel (.goCall n f b) s
-  | .constructor n f => runWrapped (run cfg fuel) cfg fuel (.goCall n f b) s
-  | .try_ => runtimeTry cfg fuel b s
-  | .tryGet f => runtimeTry cfg fuel (.goCall 0 f b) s
+    if s.callStack.length > 0 then runProgramRec (run fuel) 7 b s
+    else runProgramOuter (run fuel) fuel 7 b s
+  | .callable n f => runWrapped (run fuel) fuel (.goCall n f b) s
+  | .constructor n f => runWrapped (run fuel) fuel (.goCall n f b) s
+  | .try_ => runtimeTry fuel b s
+  | .tryGet f => runtimeTry fuel (.goCall 0 f b) s
 
 /-! ### what must hold between API calls -/
 
